@@ -433,6 +433,53 @@ def resultsOf {ε : Type} (h : Item → Option Item) : List (Ev Item ε) → Lis
   | .ok is :: rest => (is.filterMap h).map .ok ++ resultsOf h rest
   | .err is e :: rest => (is.filterMap h).map .ok ++ .error e :: resultsOf h rest
 
+/-! ### Adapters with ARBITRARY pure closures (any item type)
+
+The family `Adapter` above exists so that chains can be sent over the line protocol; the statement
+of the property does not depend on it: `GAdapter` carries any closures. -/
+
+inductive GAdapter (ι : Type) where
+  | filterItems (p : ι → Bool)
+  | filterTriples (p : ι → Bool)
+  | mapItems (g : ι → ι)
+  | mapTriples (g : ι → ι)
+  | filterMapItems (g : ι → Option ι)
+  | filterMapTriples (g : ι → Option ι)
+  | convert (g : ι → ι)
+
+def GAdapter.apply {σ ι ε : Type} (a : GAdapter ι) (S : Source σ ι ε) : Source σ ι ε :=
+  match a with
+  | .filterItems p => Source.filterItems p S
+  | .filterTriples p => Source.filterTriples p S
+  | .mapItems g => Source.mapItems g S
+  | .mapTriples g => Source.mapTriples g S
+  | .filterMapItems g => Source.filterMapItems g S
+  | .filterMapTriples g => Source.filterMapTriples g S
+  | .convert g => Source.convert g S
+
+def GAdapter.fn {ι : Type} : GAdapter ι → ι → Option ι
+  | .filterItems p, i | .filterTriples p, i => if p i then some i else none
+  | .mapItems g, i | .mapTriples g, i | .convert g, i => some (g i)
+  | .filterMapItems g, i | .filterMapTriples g, i => g i
+
+def gApplyChain {σ ι ε : Type} (c : List (GAdapter ι)) (S : Source σ ι ε) : Source σ ι ε :=
+  c.foldl (fun S a => a.apply S) S
+
+def gChainFn {ι : Type} : List (GAdapter ι) → ι → Option ι
+  | [], i => some i
+  | a :: rest, i => (a.fn i).bind (gChainFn rest)
+
+/-- the concrete family is an instance -/
+def Adapter.toG : Adapter → GAdapter Item
+  | .filterItems p => .filterItems p.eval
+  | .filterTriples p | .filterQuads p => .filterTriples p.eval
+  | .mapItems f => .mapItems f.eval
+  | .mapTriples f | .mapQuads f => .mapTriples f.eval
+  | .filterMapItems p f => .filterMapItems (fmEval p f)
+  | .filterMapTriples p f | .filterMapQuads p f => .filterMapTriples (fmEval p f)
+  | .toQuads => .convert Item.toQuad
+  | .toTriples => .convert Item.toTriple
+
 /-- what the property demands of a whole run: the consumer's callback is fed `xs` in order until
 it fails (then: `SinkError` with its error); otherwise the source's error, if any, as `SourceError` -/
 def specResult {κ ι ε εk : Type} (f : Sink κ ι εk) (k : κ) (xs : List ι) (err : Option ε) : κ × Option (StreamResult Unit ε εk) :=
@@ -589,6 +636,81 @@ def collectVec {σ ε : Type} (S : Source σ Item ε) (s : σ) :
     (s', log, v, r.map fun
       | .ok () => .ok ()
       | .error e => .error (.source e))
+
+/-! ### `GenericFastGraph` / `GenericFastDataset`: several indexes over the same statements
+
+`insert` (inmem/src/graph.rs): `ensure_index` ×3, then
+`if self.spo.insert(k) { self.pos.insert(k'); self.osp.insert(k''); Ok(true) } else { Ok(false) }`;
+`remove` likewise.  Each index is modelled as the set of the items it holds (an index entry is a
+permutation of the item's term indices, i.e. determined by the item). -/
+
+structure FastStore where
+  spo : List Item
+  pos : List Item
+  osp : List Item
+  known : List Nat
+  free : Option Nat
+  deriving Repr
+
+/-- `BTreeSet::insert` -/
+def setInsert (l : List Item) (x : Item) : List Item := if l.contains x then l else l ++ [x]
+
+def FastStore.toStore (st : FastStore) : Store := { present := st.spo, known := st.known, free := st.free }
+
+def FastStore.insert (st : FastStore) (i : Item) : FastStore × Except StoreError Bool :=
+  match st.toStore.ensureIndex i.val with
+  | .error e => (st, .error e)
+  | .ok ix =>
+    let st' : FastStore := { st with known := ix.known, free := ix.free }
+    if st'.spo.contains i then (st', .ok false)
+    else ({ st' with spo := st'.spo ++ [i], pos := setInsert st'.pos i, osp := setInsert st'.osp i }, .ok true)
+
+def FastStore.remove (st : FastStore) (i : Item) : FastStore × Except StoreError Bool :=
+  if st.spo.contains i then
+    ({ st with spo := st.spo.erase i, pos := st.pos.erase i, osp := st.osp.erase i }, .ok true)
+  else (st, .ok false)
+
+/-- every access path shows the same statements -/
+def FastStore.coherent (st : FastStore) : Prop :=
+  (∀ x, x ∈ st.pos ↔ x ∈ st.spo) ∧ (∀ x, x ∈ st.osp ↔ x ∈ st.spo)
+
+def FastStore.coherentB (st : FastStore) : Bool :=
+  st.pos.all st.spo.contains && st.spo.all st.pos.contains &&
+  st.osp.all st.spo.contains && st.spo.all st.osp.contains
+
+/-- the default `insert_all` closure on a fast store -/
+def fastInsertAllSink : Sink (FastStore × Nat) Item StoreError := fun st t =>
+  match st.1.insert t with
+  | (g, .error e) => ((g, st.2), .error e)
+  | (g, .ok true) => ((g, st.2 + 1), .ok ())
+  | (g, .ok false) => ((g, st.2), .ok ())
+
+def fastRemoveAllSink : Sink (FastStore × Nat) Item StoreError := fun st t =>
+  match st.1.remove t with
+  | (g, .error e) => ((g, st.2), .error e)
+  | (g, .ok true) => ((g, st.2 + 1), .ok ())
+  | (g, .ok false) => ((g, st.2), .ok ())
+
+def insertAllFast {σ ε : Type} (S : Source σ Item ε) (s : σ) (g : FastStore) :=
+  match tryForEachTriple S (tap fastInsertAllSink) s ([], (g, 0)) with
+  | (s', (log, (g', c)), r) => (s', log, g', andOk r c)
+
+/-- a "bulk loading" `insert_all` (NOT what /repo does; seeded change C15-d): only `spo` is fed while
+streaming, `pos`/`osp` are derived afterwards — but the stream error is propagated with `?` first -/
+def bulkInsertSink : Sink (FastStore × List Item) Item StoreError := fun st t =>
+  match st.1.toStore.ensureIndex t.val with
+  | .error e => (st, .error e)
+  | .ok ix =>
+    let g : FastStore := { st.1 with known := ix.known, free := ix.free }
+    if g.spo.contains t then ((g, st.2), .ok ()) else (({ g with spo := g.spo ++ [t] }, st.2 ++ [t]), .ok ())
+
+def insertAllBulk {σ ε : Type} (S : Source σ Item ε) (s : σ) (g : FastStore) :
+    σ × FastStore × Option (StreamResult Nat ε StoreError) :=
+  match tryForEachTriple S bulkInsertSink s (g, []) with
+  | (s', (g', added), some (.ok ())) =>
+    (s', { g' with pos := added.foldl setInsert g'.pos, osp := added.foldl setInsert g'.osp }, some (.ok added.length))
+  | (s', (g', _), some (.error e)) => (s', g', some (.error e))
+  | (s', (g', _), none) => (s', g', none)
 
 /-- `impl CollectibleGraph for HashSet<[T;3], S>` / `BTreeSet<[T;3]>` (and the dataset twins):
 `triples.for_each_triple(|t| { s.insert(..); }).map_err(SourceError)?; Ok(s)` -/
